@@ -37,7 +37,7 @@ class Check:
     def build(self, variants, groups=None):
         """compile the harness variants (only the op groups this check needs) from /repo's working tree"""
         groups = groups or self.groups
-        self.bins.update(vlib.build_many(list(variants), self.out + "/bin", groups))
+        self.bins.update(vlib.build_many(sorted(set(variants)), self.out + "/bin", groups))
 
     # ---- TLC ------------------------------------------------------------------------------
     def tlc(self, module, cfg, env=None, timeout=1500, workers=16, extra=(), simulate=None, heap="12g", expect_ok=True):
